@@ -43,9 +43,74 @@ def struct(doc, name):
     return next(s for s in doc["structures"] if s["name"] == name)
 
 
+def union_participants(doc) -> set:
+    """Structures that are alternatives of some `or` type (through aliases), and all their ancestors.  The Python package
+    parses such unions with HAND-WRITTEN hooks whose discriminators enumerate the alternatives' keys; changing the key sets
+    of the alternatives is outside the input discipline the generator (which does not regenerate the hooks) can honour."""
+    structs = {s["name"]: s for s in doc["structures"]}
+    aliases = {a["name"]: a for a in doc["typeAliases"]}
+    hit = set()
+
+    def alts(t, depth=0):
+        if depth > 8:
+            return
+        k = t["kind"]
+        if k == "reference":
+            if t["name"] in structs:
+                hit.add(t["name"])
+            elif t["name"] in aliases:
+                alts(aliases[t["name"]]["type"], depth + 1)
+        elif k == "or":
+            for i in t["items"]:
+                alts(i, depth + 1)
+        elif k == "array":
+            alts(t["element"], depth + 1)
+
+    def walk(t):
+        k = t["kind"]
+        if k == "or":
+            non_null = [i for i in t["items"] if not (i["kind"] == "base" and i["name"] == "null")]
+            if len(non_null) >= 2:
+                for i in non_null:
+                    alts(i)
+            for i in t["items"]:
+                walk(i)
+        elif k == "array":
+            walk(t["element"])
+        elif k == "map":
+            walk(t["value"])
+        elif k in ("tuple", "and"):
+            for i in t["items"]:
+                walk(i)
+        elif k == "literal":
+            for p in t["value"]["properties"]:
+                walk(p["type"])
+
+    for s_ in doc["structures"]:
+        for p in s_["properties"]:
+            walk(p["type"])
+    for a in doc["typeAliases"]:
+        walk(a["type"])
+    for m in doc["requests"] + doc["notifications"]:
+        for f in ("params", "result", "partialResult", "registrationOptions"):
+            if isinstance(m.get(f), dict):
+                walk(m[f])
+    # ancestors
+    changed = True
+    while changed:
+        changed = False
+        for n in list(hit):
+            for r in (structs[n].get("extends") or []) + (structs[n].get("mixins") or []):
+                if r.get("kind") == "reference" and r["name"] in structs and r["name"] not in hit:
+                    hit.add(r["name"])
+                    changed = True
+    return hit
+
+
 def optional_sites(doc, rnd: random.Random, k: int) -> List[str]:
     """Names of existing structures that are good hosts for a new optional property (plain parameter / options structures)."""
-    names = [s["name"] for s in doc["structures"] if not s["name"].startswith("_") and s["properties"] and s["name"] not in ("LSPObject",)]
+    excluded = union_participants(doc)
+    names = [s["name"] for s in doc["structures"] if not s["name"].startswith("_") and s["properties"] and s["name"] not in ("LSPObject",) and s["name"] not in excluded]
     rnd.shuffle(names)
     return names[:k]
 
@@ -175,7 +240,8 @@ def e_marks(doc, rnd):
 
 
 def e_remove_optional(doc, rnd):
-    cands = [(s, p) for s in doc["structures"] for p in s["properties"] if p.get("optional") and p["type"]["kind"] == "base"]
+    excluded = union_participants(doc)
+    cands = [(s, p) for s in doc["structures"] for p in s["properties"] if p.get("optional") and p["type"]["kind"] == "base" and s["name"] not in excluded]
     rnd.shuffle(cands)
     for s, p in cands[:5]:
         s["properties"].remove(p)
